@@ -15,7 +15,7 @@
    the stripe is free in the model), its unlock right after the access that
    precedes it.  [monitor] evaluates the property on the recorded trace alone. *)
 From Verif.Lib Require Import GoSem Bits.
-From Verif.Model Require Import ValueStore.
+From Verif.Model Require Export ValueStore.
 Local Open Scope N_scope.
 
 Inductive hobs :=
